@@ -1,17 +1,28 @@
 #!/bin/bash
 # maintenance: (re)write the claim files of the given properties and drop any claim that does not
-# discharge in every one of three further quick runs (never used by registered commands)
-cd "$(dirname "$0")"
+# discharge in every one of three further quick runs (never used by registered commands).
+# Works on a snapshot (the checker binary, the property files and /repo's working tree as they are when it starts),
+# so that work on the engine and the contracts can go on meanwhile; the claim files of the named properties are
+# copied back at the end.
+V="$(cd "$(dirname "$0")" && pwd)"
+export GOFLAGS=-mod=mod GOPROXY=off GOSUMDB=off GOTOOLCHAIN=local
+S=/root/scratch-stab.$$
+rm -rf "$S"; mkdir -p "$S/v/bin" "$S/repo"
+cp "$V/bin/govc" "$S/v/bin/govc"; cp -r "$V/claims" "$V/props" "$V/known_findings.json" "$S/v/"
+rsync -a --exclude .git /repo/ "$S/repo/"
+G="$S/v/bin/govc"; A="--repo $S/repo --verif $S/v --out $S/out"
 for p in "$@"; do
-  ./bin/govc check --prop $p --write-claims >/dev/null
-  ./bin/govc check --prop $p --tier thorough --write-claims >/dev/null
+  $G check $A --prop $p --write-claims >/dev/null
+  $G check $A --prop $p --tier thorough --write-claims >/dev/null
   for i in 1 2 3; do
-    out=$(./bin/govc check --prop $p 2>&1)
+    out=$($G check $A --prop $p 2>&1)
     echo "$out" | grep '^VIOLATION' | sed 's/.*obligation=\(.*\) reason=.*/\1/' | while read -r ob; do
       echo "unstable claim dropped: $ob"
-      grep -vxF "$ob" claims/$p.quick > claims/$p.quick.tmp; mv claims/$p.quick.tmp claims/$p.quick
-      grep -vxF "$ob" claims/$p.thorough > claims/$p.thorough.tmp; mv claims/$p.thorough.tmp claims/$p.thorough
+      grep -vxF "$ob" "$S/v/claims/$p.quick" > "$S/v/claims/$p.quick.tmp"; mv "$S/v/claims/$p.quick.tmp" "$S/v/claims/$p.quick"
+      grep -vxF "$ob" "$S/v/claims/$p.thorough" > "$S/v/claims/$p.thorough.tmp"; mv "$S/v/claims/$p.thorough.tmp" "$S/v/claims/$p.thorough"
     done
   done
-  ./bin/govc check --prop $p | tail -1
+  $G check $A --prop $p | tail -1
+  cp "$S/v/claims/$p.quick" "$S/v/claims/$p.thorough" "$V/claims/"
 done
+rm -rf "$S"
